@@ -44,7 +44,7 @@ func c11Files(c *core.Ctx) {
 	docs := map[string]map[string]any{}
 	for _, f := range files {
 		rel, _ := filepath.Rel(root, f)
-		b, err := os.ReadFile(f)
+		b, err := readSubjectFile(f)
 		var d map[string]any
 		if err == nil {
 			err = json.Unmarshal(b, &d)
